@@ -1,3 +1,618 @@
+/-
+  Engine `sm` (C05): model driver.  Reads the same script as harness/h_sm.c and prints the
+  callback log the connection state-machine model (`Mhd.ConnSM`) predicts.
+
+  This file contains only *scheduling glue*: the event loop of the daemon (external select /
+  epoll), a socketpair abstraction and the scripted application of the harness.  Everything a
+  connection does is done by `Mhd.ConnSM.step`; the events applied to every connection are
+  recorded and at the end of each case the recorded trace is re-run through `Mhd.ConnSM.run`
+  and `Mhd.Protocol` (line `model-check …`), so that the theorems of `Mhd.Props.C05` speak
+  about exactly the run that produced the prediction.
+-/
+import Mhd.Model.ConnSM
 import Driver.Common
-/- stub: replaced by the builder of this engine -/
-def main : IO Unit := Driver.runEngine () (fun s _ => (s, ["bad-op"]))
+open Mhd.ConnSM Mhd.Protocol Mhd.Gen.ConnState Driver
+
+namespace SM
+
+/-! ## the application of harness/h_sm.c -/
+
+structure Beh where
+  f : String := "c"
+  l : String := "r0"
+  takes : List (Option Nat) := []      -- none = all
+  ur : Option (Nat × Nat) := none      -- reply (attempt) at upload call n with response rid
+  us : Option (Nat × Nat) := none      -- suspend at upload call n for k rounds
+  deriving Inhabited
+
+structure RespSpec where
+  kind : String := "copy"
+  code : Nat := 200
+  size : Nat := 5
+  deriving Inhabited
+
+structure HApp where
+  behs : List (Nat × Beh) := []
+  resps : List (Nat × RespSpec) := []
+  nreq : Nat := 0
+  curR : Nat := 0
+  nupload : Nat := 0
+  suspOnceFinal : Bool := false
+  resumeReq : Option Nat := none
+  deriving Inhabited
+
+def lookup {α} [Inhabited α] (l : List (Nat × α)) (k : Nat) : α :=
+  match l.find? (·.1 == k) with
+  | some (_, v) => v
+  | none => default
+
+def mkResp (a : HApp) (rid : Nat) : Resp :=
+  let s := lookup a.resps rid
+  { rid := rid,
+    freeCb := s.kind == "freecb" || s.kind == "cb-known" || s.kind == "cb-unknown",
+    body := true,
+    emptyBody := s.size == 0 || s.kind == "empty",
+    chunkedBody := s.kind == "cb-unknown",
+    valid := 100 ≤ s.code && s.code ≤ 999 && s.code != 101 }
+
+def ridOf (s : String) : Nat := (s.drop 1).toString.toNat?.getD 0
+
+def harnessHandle (a : HApp) (ci : CallInfo) : HApp × Dec :=
+  match ci.ctxIn with
+  | none =>
+      -- first call of a request
+      let r := a.nreq
+      let a := { a with nreq := a.nreq + 1, curR := r, nupload := 0, suspOnceFinal := false }
+      let b := lookup a.behs r
+      let ctx := some (r + 1)
+      if b.f.startsWith "r" then (a, { act := .reply (mkResp a (ridOf b.f)) false, ctxOut := ctx })
+      else if b.f == "no" then (a, { act := .fail, ctxOut := ctx })
+      else if b.f.startsWith "s" then
+        ({ a with resumeReq := some (ridOf b.f) }, { act := .suspend, ctxOut := ctx })
+      else (a, { act := .cont, ctxOut := ctx })
+  | some cx =>
+      let b := lookup a.behs a.curR
+      if ci.offered ≠ 0 then
+        let n := a.nupload
+        let a := { a with nupload := n + 1 }
+        let t : Option Nat := if b.takes.isEmpty then none else (b.takes[n % b.takes.length]?).getD none
+        let take := match t with
+          | none => ci.offered
+          | some k => min k ci.offered
+        match b.ur, b.us with
+        | some (un, rid), _ =>
+            if un == n then (a, { take := take, act := .reply (mkResp a rid) false, ctxOut := some cx })
+            else match b.us with
+              | some (sn, k) =>
+                  if sn == n then ({ a with resumeReq := some k }, { take := take, act := .suspend, ctxOut := some cx })
+                  else (a, { take := take, act := .cont, ctxOut := some cx })
+              | none => (a, { take := take, act := .cont, ctxOut := some cx })
+        | none, some (sn, k) =>
+            if sn == n then ({ a with resumeReq := some k }, { take := take, act := .suspend, ctxOut := some cx })
+            else (a, { take := take, act := .cont, ctxOut := some cx })
+        | none, none => (a, { take := take, act := .cont, ctxOut := some cx })
+      else
+        -- "final" phase of the harness (any call without upload data after the first)
+        if b.l.startsWith "s" && !a.suspOnceFinal then
+          ({ a with suspOnceFinal := true, resumeReq := some (ridOf b.l) }, { act := .suspend, ctxOut := some cx })
+        else if b.l == "no" then (a, { act := .fail, ctxOut := some cx })
+        else if b.l.startsWith "r" then (a, { act := .reply (mkResp a (ridOf b.l)) false, ctxOut := some cx })
+        else (a, { act := .reply (mkResp a 0) false, ctxOut := some cx })
+
+def harnessApp : App HApp :=
+  { uriLog := fun a => (a, none), handle := harnessHandle }
+
+/-! ## sockets and daemon -/
+
+inductive SockItem where
+  | toks (t : List Tok)
+  | eof
+  | nospace (ext : Bool)     -- the read buffer cannot take what follows
+  deriving Inhabited
+
+structure DConn where
+  idx : Nat
+  conn : Conn HApp
+  sock : List SockItem := []
+  pending : Bool := true           -- added, start notification not yet delivered
+  peerGone : Bool := false         -- client closed its end completely
+  hupSeen : Bool := false          -- epoll: HUP already delivered
+  lastActivity : Nat := 0
+  resumeIn : Option Nat := none
+  resuming : Bool := false         -- MHD_resume_connection called, not yet processed
+  newData : Bool := false          -- epoll: edge not yet consumed
+  readReady : Bool := false        -- epoll: MHD_EPOLL_STATE_READ_READY
+  hdrFail : Bool := false          -- the pool cannot take the header of MHD's error reply (first attempt)
+  trace : List Ev := []            -- events applied so far (reverse order)
+
+instance : Inhabited DConn := ⟨{ idx := 0, conn := Conn.init default }⟩
+
+structure D where
+  mode : String := "select"
+  timeoutMs : Nat := 0
+  suspend : Bool := false
+  started : Bool := false
+  stopped : Bool := false
+  now : Nat := 1000000
+  conns : List DConn := []
+  behs : List (Nat × List (Nat × Beh)) := []      -- per connection index
+  resps : List (Nat × RespSpec) := []
+  failCalloc : Bool := false
+  failEpollAdd : Bool := false
+  cfg : Cfg := {}
+  deriving Inhabited
+
+def stName (s : CState) : Nat := s.toNat
+
+def showEv (c : Nat) : LEv → String
+  | .connStart => s!"conn-start c={c}"
+  | .connClose => s!"conn-close c={c}"
+  | .uriLog _ => s!"uri-log c={c}"
+  | .handler site off len taken _ _ ret =>
+      let s := match site with | .first => "first" | .upload => "upload" | .final => "final"
+      s!"handler c={c} site={s} off={off} len={len} taken={taken} ret={if ret then 1 else 0}"
+  | .queued => s!"queued c={c}"
+  | .completed code _ => s!"completed c={c} code={code}"
+  | .invalidate => s!"invalidate c={c}"
+  | .freeCb rid => s!"free-cb rid={rid}"
+
+/-- apply one connection event through the model, record it, emit its log -/
+def apply (d : D) (dc : DConn) (e : Ev) : DConn × List String :=
+  let (c', log) := step d.cfg harnessApp dc.conn e
+  let dc := { dc with conn := c', trace := e :: dc.trace }
+  -- side channels of the harness application / of MHD_update_last_activity_
+  let dc := match c'.app.resumeReq with
+    | some k => { dc with resumeIn := some k, conn := { c' with app := { c'.app with resumeReq := none } } }
+    | none => dc
+  let dc := if log.any (· == .queued) && d.timeoutMs != 0 then { dc with lastActivity := d.now } else dc
+  (dc, log.map (showEv dc.idx))
+
+def timedOut (d : D) (dc : DConn) : Bool :=
+  d.timeoutMs != 0 && d.now - dc.lastActivity > d.timeoutMs
+
+def eliRead (c : Conn HApp) : Bool := wantsRead c
+def eliWrite (c : Conn HApp) : Bool :=
+  match c.state with
+  | .continueSending | .headersSending | .normalBodyReady | .chunkedBodyReady | .footersSending => true
+  | _ => false
+
+def mkEnv (d : D) (dc : DConn) : IdleEnv :=
+  let ns := match dc.sock with
+    | .nospace ext :: _ => some ext
+    | _ => none
+  { timedOut := timedOut d dc,
+    noSpace := ns.isSome,
+    chunkExt := ns.getD false,
+    errAllocFail := d.failCalloc,
+    errHdrFail1 := dc.hdrFail,
+    epollAdd := if d.cfg.epoll && !dc.conn.inEpollSet && !dc.conn.suspended
+                   && ((eliRead dc.conn && !dc.readReady)) then some (!d.failEpollAdd) else none }
+
+/-- MHD_connection_handle_idle with the environment of this moment; consumes one-shot faults -/
+def doIdle (d : D) (dc : DConn) : D × DConn × List String :=
+  let env := mkEnv d dc
+  let swe := dc.conn.stopWithError
+  let inSet := dc.conn.inEpollSet
+  -- the epoll_ctl(ADD) decision depends on the state *after* the loop: run once to see it
+  let (dc1, out1) := apply d dc (.idle { env with epollAdd := none })
+  let needAdd := d.cfg.epoll && !dc1.conn.inEpollSet && !dc1.conn.suspended && !dc1.conn.inCleanup
+                 && dc1.conn.state != CState.closed
+                 && ((eliRead dc1.conn && !dc1.readReady))
+  let (dc2, out) :=
+    if needAdd then
+      -- redo with the epoll_ctl outcome (the model is deterministic: same prefix)
+      let dcr := { dc with trace := dc.trace }
+      apply d dcr (.idle { env with epollAdd := some (!d.failEpollAdd) })
+    else (dc1, out1)
+  let d := if needAdd && d.failEpollAdd then { d with failEpollAdd := false } else d
+  let d := if d.failCalloc && !swe && dc2.conn.stopWithError then { d with failCalloc := false } else d
+  -- a handled no-space marker is removed from the socket
+  let dc2 := match dc2.sock with
+    | .nospace _ :: t => if dc2.conn.stopWithError || dc2.conn.state == CState.closed then { dc2 with sock := t } else dc2
+    | _ => dc2
+  let dc2 := if dc2.hdrFail && !swe && dc2.conn.stopWithError then { dc2 with hdrFail := false } else dc2
+  let _ := inSet
+  (d, dc2, out)
+
+def sockReadable (dc : DConn) : Bool :=
+  match dc.sock with
+  | [] => false
+  | .nospace _ :: _ => false
+  | _ => true
+
+/-- MHD_connection_handle_read: one recv() -/
+def doRead (d : D) (dc : DConn) (sockErr : Bool) : DConn × List String :=
+  if dc.conn.state == CState.closed || dc.conn.suspended then (dc, []) else
+  match dc.sock with
+  | .toks t :: rest =>
+      if sockErr then
+        -- data then the error probe: recv() of the rest; EOF ⇒ "closed due to error"
+        let (dc1, o) := apply d { dc with sock := rest } (.recvErr false)
+        (dc1, o)
+      else
+        let (dc1, o) := apply d { dc with sock := rest, readReady := false } (.recv t)
+        ({ dc1 with lastActivity := if d.timeoutMs != 0 && !dc1.conn.suspended then d.now else dc1.lastActivity }, o)
+  | .eof :: rest =>
+      if sockErr then apply d { dc with sock := rest } (.recvErr false)
+      else apply d { dc with sock := .eof :: rest } .recvEof
+  | _ =>
+      if sockErr then apply d dc (.recvErr false)
+      else ({ dc with readReady := false }, [])      -- EAGAIN
+
+def doWrite (d : D) (dc : DConn) : DConn × List String :=
+  if dc.peerGone then apply d dc (.write .err)
+  else
+    let (dc1, o) := apply d dc (.write .done)
+    ({ dc1 with lastActivity := if d.timeoutMs != 0 && !dc1.conn.suspended then d.now else dc1.lastActivity }, o)
+
+/-- call_handlers -/
+def callHandlers (d : D) (dc : DConn) (readReady writeReady forceClose : Bool) : D × DConn × List String :=
+  let fast := dc.conn.state == CState.init
+  if eliRead dc.conn && (readReady || forceClose) then
+    let (dc1, o1) := doRead d dc forceClose
+    let (d, dc2, o2) := doIdle d dc1
+    if forceClose then (d, dc2, o1 ++ o2)
+    else
+      let (d, dc3, o3) :=
+        if eliWrite dc2.conn && writeReady then
+          let (dc3, o3) := doWrite d dc2
+          let (d, dc4, o4) := doIdle d dc3
+          (d, dc4, o3 ++ o4)
+        else (d, dc2, [])
+      -- fast track
+      let (d, dc4, o4) :=
+        if fast then
+          let (d, dcA, oA) :=
+            if dc3.conn.state == CState.headersSending then
+              let (dcx, ox) := doWrite d dc3
+              let (d, dcy, oy) := doIdle d dcx
+              (d, dcy, ox ++ oy)
+            else (d, dc3, [])
+          if dcA.conn.state == CState.normalBodyReady || dcA.conn.state == CState.chunkedBodyReady then
+            let (dcx, ox) := doWrite d dcA
+            let (d, dcy, oy) := doIdle d dcx
+            (d, dcy, oA ++ ox ++ oy)
+          else (d, dcA, oA)
+        else (d, dc3, [])
+      (d, dc4, o1 ++ o2 ++ o3 ++ o4)
+  else if forceClose then
+    let (dc1, o1) := apply d dc .forceClose
+    let (d, dc2, o2) := doIdle d dc1
+    (d, dc2, o1 ++ o2)
+  else if eliWrite dc.conn && writeReady then
+    let (dc1, o1) := doWrite d dc
+    let (d, dc2, o2) := doIdle d dc1
+    (d, dc2, o1 ++ o2)
+  else
+    let (d, dc1, o1) := doIdle d dc
+    (d, dc1, o1)
+
+def getConn (d : D) (i : Nat) : Option DConn := d.conns.find? (fun (x : DConn) => x.idx == i)
+
+def setConn (d : D) (dc : DConn) : D :=
+  { d with conns := d.conns.map fun x => if x.idx == dc.idx then dc else x }
+
+/-- harness `one_round`: auto-resume bookkeeping -/
+def autoResume (d : D) : D × List String :=
+  d.conns.foldl (fun (acc : D × List String) dc0 =>
+    let (d, out) := acc
+    let dc := ((getConn d dc0.idx).getD dc0)
+    if dc.conn.cleaned || !dc.conn.started then (d, out) else
+    match dc.resumeIn with
+    | some 0 => (setConn d { dc with resumeIn := none, resuming := true }, out)
+    | some (k + 1) => (setConn d { dc with resumeIn := some k }, out)
+    | none => (d, out)) (d, [])
+
+/-- resume_suspended_connections -/
+def processResumes (d : D) : D × List String :=
+  d.conns.foldl (fun (acc : D × List String) dc0 =>
+    let (d, out) := acc
+    let dc := ((getConn d dc0.idx).getD dc0)
+    if dc.resuming && dc.conn.suspended then
+      let (dc1, o) := apply d { dc with resuming := false } .resume
+      let dc1 := { dc1 with lastActivity := if d.timeoutMs != 0 then d.now else dc1.lastActivity,
+                            readReady := true, newData := true }
+      (setConn d dc1, out ++ o)
+    else (setConn d { dc with resuming := false }, out)) (d, [])
+
+def processNew (d : D) : D × List String × List Nat :=
+  d.conns.foldl (fun (acc : D × List String × List Nat) dc0 =>
+    let (d, out, fresh) := acc
+    let dc := ((getConn d dc0.idx).getD dc0)
+    if dc.pending then
+      let (dc1, o) := apply d { dc with pending := false } .start
+      (setConn d { dc1 with newData := true }, out ++ o, dc.idx :: fresh)
+    else (d, out, fresh)) (d, [], [])
+
+def processCleanup (d : D) : D × List String :=
+  d.conns.foldl (fun (acc : D × List String) dc0 =>
+    let (d, out) := acc
+    let dc := ((getConn d dc0.idx).getD dc0)
+    if dc.conn.inCleanup && !dc.conn.cleaned then
+      let (dc1, o) := apply d dc .cleanup
+      (setConn d dc1, out ++ o)
+    else (d, out)) (d, [])
+
+def live (dc : DConn) : Bool := dc.conn.started && !dc.conn.inCleanup && !dc.conn.cleaned && !dc.conn.suspended
+
+/-- one external-select round: MHD_get_fdset2, select (0), MHD_run_from_select2 -/
+def roundSelect (d : D) : D × List String :=
+  let (d, o0) := autoResume d
+  -- fd sets are computed before anything runs
+  let sets := d.conns.filterMap fun dc =>
+    if live dc then some (dc.idx, eliRead dc.conn && sockReadable dc, eliWrite dc.conn) else none
+  let (d, o1) := processResumes d
+  let (d, o2, _) := processNew d
+  -- newest first in the list, traversal from the tail: oldest first
+  let order : List Nat := d.conns.map (fun (x : DConn) => x.idx)
+  let (d, o3) := order.foldl (fun (acc : D × List String) i =>
+    let (d, out) := acc
+    match getConn d i with
+    | none => (d, out)
+    | some dc =>
+      if !live dc then (d, out) else
+      let (r, w) := match sets.find? (·.1 == i) with
+        | some (_, r, w) => (r, w)
+        | none => (false, false)
+      let (d, dc1, o) := callHandlers d dc r w false
+      (setConn d dc1, out ++ o)) (d, [])
+  let (d, o4) := processCleanup d
+  (d, o0 ++ o1 ++ o2 ++ o3 ++ o4)
+
+/-- one MHD_run_wait (0) in epoll mode -/
+def roundEpoll (d : D) : D × List String :=
+  let (d, o0) := autoResume d
+  let (d, o1) := processResumes d
+  -- epoll_wait: edges for connections that are in the epoll set
+  let d := { d with conns := d.conns.map fun dc =>
+    if dc.conn.started && dc.conn.inEpollSet && !dc.conn.cleaned && dc.newData && sockReadable dc
+    then { dc with readReady := true, newData := false } else dc }
+  let (d, o2, fresh) := processNew d
+  -- time-outs: the least recently active connection is always looked at
+  let cand : List DConn := (d.conns.filter fun dc => live dc && !fresh.contains dc.idx)
+  let lru := cand.foldl (fun (m : Option DConn) dc => match m with
+    | none => some dc
+    | some x => if dc.lastActivity < x.lastActivity then some dc else some x) none
+  let (d, o3) : D × List String := match lru with
+    | some dc =>
+        if timedOut d dc then
+          -- every timed-out connection is closed (sorted list walk)
+          cand.foldl (fun (acc : D × List String) (dc0 : DConn) =>
+            let (d, out) := acc
+            let dc := ((getConn d dc0.idx).getD dc0)
+            if timedOut d dc then
+              let (d, dc1, o) := doIdle d dc
+              (setConn d dc1, out ++ o)
+            else (d, out)) (d, [])
+        else
+          let (d, dc1, o) := doIdle d dc
+          (setConn d dc1, o)
+    | none => (d, [])
+  -- eready list
+  let order : List Nat := d.conns.map (fun (x : DConn) => x.idx)
+  let (d, o4) := order.foldl (fun (acc : D × List String) i =>
+    let (d, out) := acc
+    match getConn d i with
+    | none => (d, out)
+    | some dc =>
+      if !live dc || fresh.contains i then (d, out) else
+      let hup := dc.peerGone && !dc.hupSeen && dc.conn.inEpollSet
+      let ready := hup || (dc.readReady && (eliRead dc.conn)) || eliWrite dc.conn
+                   || dc.conn.state == CState.fullReqReceived || dc.conn.state == CState.closed
+                   || dc.conn.state == CState.headersProcessed
+                   || dc.conn.state == CState.normalBodyUnready || dc.conn.state == CState.chunkedBodyUnready
+                   || (dc.conn.state == CState.bodyReceiving && !dc.conn.buf.isEmpty)
+                   || (dc.conn.state == CState.init && !dc.conn.buf.isEmpty)
+      if !ready then (d, out) else
+      let dc := if hup then { dc with hupSeen := true } else dc
+      let (d, dc1, o) := callHandlers d dc dc.readReady true hup
+      (setConn d dc1, out ++ o)) (d, [])
+  let (d, o5) := processCleanup d
+  (d, o0 ++ o1 ++ o2 ++ o3 ++ o4 ++ o5)
+
+def oneRound (d : D) : D × List String :=
+  if d.mode == "epoll" then roundEpoll d else roundSelect d
+
+def rounds (d : D) : Nat → D × List String
+  | 0 => (d, [])
+  | n + 1 =>
+      let (d1, o1) := oneRound d
+      let (d2, o2) := rounds d1 n
+      (d2, o1 ++ o2)
+
+def sstLines (d : D) : List String :=
+  d.conns.reverse.filterMap fun dc =>
+    if dc.conn.started && !dc.conn.cleaned then
+      some s!"sst c={dc.idx} state={stName dc.conn.state} aware={if dc.conn.clientAware then 1 else 0} susp={if dc.conn.suspended then 1 else 0}"
+    else none
+
+/-- MHD_stop_daemon: close_all_connections -/
+def stopDaemon (d : D) : D × List String :=
+  -- connections added but never processed are closed without notifications
+  let d := { d with conns := d.conns.filter (!·.pending) }
+  let (d, o0) := d.conns.foldl (fun (acc : D × List String) dc0 =>
+    let (d, out) := acc
+    let dc := ((getConn d dc0.idx).getD dc0)
+    if dc.resuming && dc.conn.suspended then
+      let (dc1, o) := apply d { dc with resuming := false } .resume
+      (setConn d dc1, out ++ o)
+    else (d, out)) (d, [])
+  let (d, o1) := d.conns.foldl (fun (acc : D × List String) dc0 =>
+    let (d, out) := acc
+    let dc := ((getConn d dc0.idx).getD dc0)
+    if live dc then
+      let (dc1, o) := apply d dc .shutdownClose
+      (setConn d dc1, out ++ o)
+    else (d, out)) (d, [])
+  let (d, o2) := processCleanup d
+  ({ d with stopped := true }, o0 ++ o1 ++ o2)
+
+/-- end-of-case self check: the recorded traces, re-run through the model and the protocol automaton -/
+def modelCheck (d : D) : List String :=
+  d.conns.reverse.map fun dc =>
+    let behs := lookup d.behs dc.idx
+    let (c, log) := run d.cfg harnessApp (Conn.init { behs := behs, resps := d.resps }) dc.trace.reverse
+    let acc := decide (accepts log)
+    let comp := decide (complete log)
+    s!"model-check c={dc.idx} accepts={acc} complete={comp || !c.cleaned} fault={c.fault} same={c.state == dc.conn.state}"
+
+/-! ## script -/
+
+def kvOf (w : String) : Option (String × String) :=
+  match w.splitOn "=" with
+  | [k, v] => some (k, v)
+  | _ => none
+
+def parseTakes (s : String) : List (Option Nat) :=
+  (s.splitOn ",").map fun x => if x == "all" then none else x.toNat?
+
+def parsePair (s : String) (dropR : Bool) : Option (Nat × Nat) :=
+  match s.splitOn ":" with
+  | [a, b] =>
+      let b' := if dropR then (b.drop 1).toString else b
+      match a.toNat?, b'.toNat? with
+      | some x, some y => some (x, y)
+      | _, _ => none
+  | [a] => a.toNat?.map (·, 0)
+  | _ => none
+
+def parseBeh (ws : List String) : Beh :=
+  ws.foldl (fun b w => match kvOf w with
+    | some ("f", v) => { b with f := v }
+    | some ("l", v) => { b with l := v }
+    | some ("u", v) => { b with takes := parseTakes v }
+    | some ("ur", v) => { b with ur := parsePair v true }
+    | some ("us", v) => { b with us := parsePair v false }
+    | _ => b) {}
+
+def parseTok (w : String) : Option SockItem :=
+  let num (s : String) : Option Nat := s.toNat?
+  if w == "P" then some (.toks [.junk])
+  else if w == "L" then some (.toks [.line .ok])
+  else if w == "Lbad" then some (.toks [.line .bad])
+  else if w == "Ltgt" then some (.toks [.line .badTarget])
+  else if w == "Hbad" then some (.toks [.hdrBad])
+  else if w == "E" then some (.toks [.chunkEnd])
+  else if w == "Cbad" then some (.toks [.chunkBad])
+  else if w == "F" then some (.toks [.footers true])
+  else if w == "Fbad" then some (.toks [.footers false])
+  else if w == "NS" then some (.nospace false)
+  else if w == "NSX" then some (.nospace true)
+  else if w.startsWith "D" then (num (w.drop 1).toString).map fun k => .toks [.data k]
+  else if w.startsWith "C" then (num (w.drop 1).toString).map fun k => .toks [.chunkHdr k]
+  else if w.startsWith "H:" then
+    -- H:<framing>:<ka>:<expect>
+    match w.splitOn ":" with
+    | [_, f, ka, ex] =>
+        let fr : Option Framing :=
+          if f == "n" then some .none else if f == "c" then some .chunked else if f == "bad" then some .bad
+          else if f.startsWith "l" then (num (f.drop 1).toString).map Framing.length else none
+        fr.map fun fr => .toks [.headers fr (ka == "1") (ex == "1")]
+    | _ => none
+  else none
+
+def appendSock (s : List SockItem) (it : SockItem) : List SockItem :=
+  match s.getLast?, it with
+  | some (.toks a), .toks b => s.dropLast ++ [.toks (appendToks a b)]
+  | _, _ => s ++ [it]
+
+def findConn (d : D) (c : Nat) : Option DConn := d.conns.find? (·.idx == c)
+
+def stepLine (d : D) (ws : List String) : D × List String :=
+  match ws with
+  | "case" :: rest => ({}, [s!"case {rest.headD "-"}"])
+  | "cfg" :: kvs =>
+      let d := kvs.foldl (fun d w => match kvOf w with
+        | some ("mode", v) => { d with mode := v }
+        | some ("timeout", v) => { d with timeoutMs := (v.toNat?.getD 0) * 1000 }
+        | some ("suspend", v) => { d with suspend := v == "1" }
+        | _ => d) d
+      (d, ["ok"])
+  | ["start"] =>
+      if d.mode != "select" && d.mode != "epoll" then (d, ["bad-op"]) else
+      ({ d with started := true,
+                cfg := { uriLog := true, allowSuspend := d.suspend, epoll := d.mode == "epoll",
+                         f9Fixed := f9Fixed, allocBypassFixed := allocBypassFixed,
+                         epollBypassFixed := epollBypassFixed, f14Fixed := f14Fixed } }, ["started"])
+  | "resp" :: rid :: kvs =>
+      match rid.toNat? with
+      | none => (d, ["bad-op"])
+      | some r =>
+        let s := kvs.foldl (fun (s : RespSpec) w => match kvOf w with
+          | some ("kind", v) => { s with kind := v }
+          | some ("code", v) => { s with code := v.toNat?.getD 0 }
+          | some ("size", v) => { s with size := v.toNat?.getD 0 }
+          | _ => s) {}
+        ({ d with resps := (r, s) :: d.resps.filter (·.1 != r) }, ["ok"])
+  | "beh" :: c :: r :: kvs =>
+      match c.toNat?, r.toNat? with
+      | some c, some r =>
+          let cur := lookup d.behs c
+          let cur := (r, parseBeh kvs) :: cur.filter (·.1 != r)
+          ({ d with behs := (c, cur) :: d.behs.filter (·.1 != c) }, ["ok"])
+      | _, _ => (d, ["bad-op"])
+  | _ =>
+    if !d.started || d.stopped then
+      match ws with
+      | ["tick", ms] => match ms.toNat? with
+          | some k => ({ d with now := d.now + k }, ["ok"])
+          | none => (d, ["bad-op"])
+      | _ => (d, ["bad-op"])
+    else
+    match ws with
+    | ["arrive", c, _] =>
+        match c.toNat? with
+        | some c =>
+            if (findConn d c).isSome then (d, ["bad-op"]) else
+            let app : HApp := { behs := lookup d.behs c, resps := d.resps }
+            let dc : DConn := { idx := c, conn := Conn.init app, lastActivity := d.now }
+            ({ d with conns := dc :: d.conns }, [s!"arrive c={c}"])
+        | none => (d, ["bad-op"])
+    | "send" :: c :: _hex :: toks =>
+        match c.toNat?.bind (findConn d) with
+        | none => (d, ["bad-op"])
+        | some dc =>
+          let hf := toks.contains "HF"
+          match (toks.filter (· != "HF")).mapM parseTok with
+          | none => (d, ["bad-op"])
+          | some items =>
+              if dc.peerGone then (d, ["ok"]) else
+              let dc := { dc with sock := items.foldl appendSock dc.sock, newData := true, hdrFail := dc.hdrFail || hf }
+              (setConn d dc, ["ok"])
+    | ["shutwr", c] =>
+        match c.toNat?.bind (findConn d) with
+        | none => (d, ["bad-op"])
+        | some dc => (setConn d { dc with sock := dc.sock ++ [.eof], newData := true }, ["ok"])
+    | ["cclose", c] =>
+        match c.toNat?.bind (findConn d) with
+        | none => (d, ["bad-op"])
+        | some dc =>
+            let sock := if dc.sock.any (fun | .eof => true | _ => false) then dc.sock else dc.sock ++ [.eof]
+            (setConn d { dc with sock := sock, peerGone := true, newData := true }, ["ok"])
+    | ["round"] =>
+        let (d, o) := oneRound d
+        (d, o ++ ["round-done"])
+    | ["settle", n] =>
+        match n.toNat? with
+        | some n =>
+            let (d, o) := rounds d n
+            (d, o ++ sstLines d)
+        | none => (d, ["bad-op"])
+    | ["tick", ms] =>
+        match ms.toNat? with
+        | some k => ({ d with now := d.now + k }, ["ok"])
+        | none => (d, ["bad-op"])
+    | ["resume", c] =>
+        match c.toNat?.bind (findConn d) with
+        | none => (d, ["bad-op"])
+        | some dc => (setConn d { dc with resumeIn := none, resuming := true }, ["ok"])
+    | ["fail-calloc", _] => ({ d with failCalloc := true }, ["ok"])
+    | ["fail-epoll-add", _] => ({ d with failEpollAdd := true }, ["ok"])
+    | ["stop"] =>
+        let (d, o) := stopDaemon d
+        (d, o ++ modelCheck d ++ ["stopped"])
+    | _ => (d, ["bad-op"])
+
+end SM
+
+def main : IO Unit := Driver.runEngine ({} : SM.D) SM.stepLine
